@@ -26,7 +26,7 @@
 //@ check w_c15_ints       kind=bounded bound=12-integer-columns(6-types-x-signedness),4-boundary-classes-via-generic-values,1-row-via-fixed-width-types fn=run_on
 //@ check w_c16_c17_stmt   kind=bounded bound=7-scripts-of-executions-and-long-data-over-2-statements(rebind,reuse,reuse-after-long-data) fn=run_on
 //@ check w_c20_malformed kind=bounded bound=48-odd-or-malformed-client-inputs(USE-spellings,unknown-and-truncated-commands,empty-payloads,fragment-ids,all-256-command-bytes) fn=run_on
-//@ check w_c19_faults     kind=bounded bound=every-truncation-point-and-every-failing-transport-operation-of-a-6-command-conversation,every-failing-operation-of-a-conversation-with-multi-packet-responses fn=run_on
+//@ check w_c19_faults     kind=bounded bound=every-truncation-point-and-every-failing-transport-operation-of-a-6-command-conversation,every-failing-operation-of-a-conversation-with-multi-packet-responses,every-failing-operation-with-the-all-defaults-shim fn=run_on
 #![allow(dead_code, unused_imports, unused_variables, clippy::all)]
 use crate::{Column, ColumnFlags, ColumnType, ErrorKind, InitWriter, MysqlIntermediary, MysqlShim, ParamParser, QueryResultWriter, StatementMetaWriter};
 use crate::myc;
@@ -591,6 +591,38 @@ impl MysqlShim<Shared> for TShim {
         self.log.borrow_mut().push(Ev::Auth(ctx.username.clone()));
         if self.reject { Err(TErr("rejected".into())) } else { Ok(()) }
     }
+}
+
+/// a shim that keeps every default method of the trait (on_init answers OK by itself, authentication accepts)
+pub struct DShim { pub log: Rc<RefCell<Vec<Ev>>> }
+impl MysqlShim<Shared> for DShim {
+    type Error = TErr;
+    fn on_prepare(&mut self, query: &str, info: StatementMetaWriter<'_, Shared>) -> Result<(), TErr> {
+        self.log.borrow_mut().push(Ev::Prepare(query.as_bytes().to_vec()));
+        Ok(info.error(ErrorKind::ER_NO, &b"no"[..])?)
+    }
+    fn on_execute(&mut self, _: u32, _: ParamParser<'_>, results: QueryResultWriter<'_, Shared>) -> Result<(), TErr> { Ok(results.completed(0, 0)?) }
+    fn on_close(&mut self, _: u32) {}
+    fn on_query(&mut self, query: &str, results: QueryResultWriter<'_, Shared>) -> Result<(), TErr> {
+        self.log.borrow_mut().push(Ev::Query(query.as_bytes().to_vec()));
+        Ok(results.completed(1, 1)?)
+    }
+}
+/// conversation with the all-defaults shim: (result, panicked, callbacks, operations performed)
+pub fn converse_default(cmds: &[(Vec<u8>, u8)], fail_at: Option<(usize, bool)>) -> (Result<(), String>, bool, Vec<Ev>, usize, Vec<u8>) {
+    let mut input = frame(&hs41(b"u", 0), 1);
+    for (c, s) in cmds { input.extend_from_slice(&frame(c, *s)); }
+    let net = Shared::new(input, vec![]);
+    if let Some((k, pers)) = fail_at { let mut n = net.0.borrow_mut(); n.fail_at = Some(k); n.fail_persistent = pers; n.fail_kind = io::ErrorKind::BrokenPipe; }
+    let log = Rc::new(RefCell::new(vec![]));
+    let shim = DShim { log: log.clone() };
+    let n2 = net.clone();
+    let r = std::panic::catch_unwind(std::panic::AssertUnwindSafe(move || MysqlIntermediary::run_on(shim, n2)));
+    let (result, panicked) = match r { Ok(Ok(())) => (Ok(()), false), Ok(Err(e)) => (Err(e.0), false), Err(_) => (Err("PANIC".into()), true) };
+    let l = log.borrow().clone();
+    let ops = net.0.borrow().ops;
+    let out = net.0.borrow().out.clone();
+    (result, panicked, l, ops, out)
 }
 
 pub struct Run { pub result: Result<(), String>, pub panicked: bool, pub log: Vec<Ev>, pub notes: Vec<String>, pub out: Vec<u8>, pub net: Shared }
@@ -1295,6 +1327,20 @@ fn w_c19_faults() {
             let r = converse_k(hs.clone(), &bigcmds, vec![], false, Some((k, pers)), None, io::ErrorKind::BrokenPipe);
             if r.panicked { continue; }
             assert!(r.result.is_err(), "[C19.w.fault] {} transport error at operation {} of a conversation with multi-packet responses was masked (run_on returned Ok)", if pers { "persistent" } else { "one-off" }, k);
+            cases += 1;
+        }
+    }
+    // the trait's DEFAULT methods (database switch answered by the library's default on_init): same rule
+    let dcmds: Vec<(Vec<u8>, u8)> = vec![(c_query(b"USE db1"), 0), (c_query(b"SELECT 1"), 0), (cmd(0x02, b"db2"), 0), (c_query(b"SELECT 2"), 0), (vec![0x0e], 0)];
+    let (res, _p, dlog, nops, dout) = converse_default(&dcmds, None);
+    assert!(res.is_ok() && dlog.len() == 2, "[C19.w.run] conversation with the all-defaults shim failed: {:?} {:?}", res, dlog);
+    let dm = messages(&raw_packets(&dout).expect("[C04.w.frame] not on a packet boundary")).expect("[C04.w.frame] bad framing");
+    assert!(dm.len() == 7 && dm[2..].iter().all(|x| parse_ok(&x.2).is_some()), "[C03.w.on_init] the default database switch must be answered with OK ({} messages)", dm.len());
+    for k in 0..nops {
+        for pers in [false, true] {
+            let (res, panicked, l2, _n, _o) = converse_default(&dcmds, Some((k, pers)));
+            if panicked { continue; }
+            assert!(res.is_err(), "[C19.w.fault] {} transport error at operation {} (all-defaults shim) was masked: run_on returned Ok after callbacks {:?}", if pers { "persistent" } else { "one-off" }, k, l2);
             cases += 1;
         }
     }
